@@ -188,6 +188,9 @@ func c20InstallTaps() func() {
 		}
 	}
 	endReloadProxyFailureSuppression = func() {
+		if c20LongOwnedEnd() { // part 4: a monitor-owned flag that never opened a muting scope
+			return
+		}
 		if e := c20Cur.Load(); e != nil && !e.inQfull.Load() {
 			c20Perturb(e)
 		}
